@@ -232,8 +232,28 @@ mode n p
 """
 
 
+# a $ comment between an entry and the repeat shortcut after it: expanding the shortcut repeated the comment
+CORPUS_TEXT3 = """comment before a repeat shortcut
+1 0 -8
+2 0 8 -9
+3 0 9 -10
+4 0 10
+
+8 so 1
+9 so 2
+10 so 3
+
+mode n
+imp:n 1.0 $ vol=2
+         3r
+"""
+
+
 def gen_cases(chk):
     cases = []
+    for k in range(4):
+        cases.append({"name": f"corpus-shortcut-comment-{k}", "limit": 128, "text": CORPUS_TEXT3, "seed": 7200 + k, "nedits": 1,
+                      "kinds": ["importance"]})
     for k in range(6):
         cases.append({"name": f"corpus-shared-entry-comment-{k}", "limit": 128, "text": CORPUS_TEXT2, "seed": 7100 + k, "nedits": 1,
                       "kinds": ["importance"]})
